@@ -109,6 +109,12 @@ CHECKS.update({
             "Values are kept within the in-memory limit (the value threshold), as the property states. The differential part uses one client so that results do not depend on the schedule.", "3/C37"),
 })
 
+CHECKS.update({
+    "C38": ("exploration", "deterministic simulation with stall-prone settings, every public call as a scheduled actor, deadlock detector + step budget + watchdog",
+            "3-5 clients mix all public calls (commits, CommitWith, reads, iterators, WriteBatch, RunValueLogGC, DropAll, DropPrefix, Flatten, Subscribe/cancel) against real compactors with writers stalling on a full L0 / memtable queue, and Close starts with commit callbacks still in flight: no state may be reached in which nothing is runnable and simulated time changes nothing, every call returns within the step budget, every callback runs.",
+            "Liveness is bounded: fairness forcing after 24 skipped turns, 200k-step budget. A process abort inside a run is turned into a replayable violation. One known finding (Flatten concurrent with DropPrefix segfaults) is probed from a recorded case and not generated; items/iterators are not held across drops (documented as unsafe).", "3/C38"),
+})
+
 PENDING = {}  # property -> reason while not yet implemented
 
 def main():
